@@ -116,6 +116,19 @@ def gate_rules(facts, rep, w, D):
     rep.ob("R07.2", tr_fn.id, "translator builds no error of its own", not own_errs, "" if not own_errs else
            "the translator rejects some paths itself: canonical paths that name entries below the root become unreachable "
            "through the altroot while the underlying filesystem serves them", own_errs[0] if own_errs else tr_fn.span)
+    # ... and it only computes a path: no operation on the inner filesystem (every method of the adapter runs it, observers
+    # included — a create_dir_all "to be safe" makes exists()/read_dir() write)
+    effects = []
+    for cbt in inter.code_bodies(tr_fn):
+        for s_ in inter.sites(cbt):
+            nm_ = sname(s_.path)
+            if (s_.self_ty and s_.self_ty.endswith("VfsPath") and nm_ not in ("join", "clone", "as_str", "root", "parent", "filename")) or \
+                    s_.trait == w.trait:
+                effects.append(s_.short)
+    n += 1
+    rep.ob("R07.2", tr_fn.id, "translator performs no filesystem operation", not effects, "" if not effects else
+           "the translator calls %s: every operation of the adapter, observers included, has that effect on the inner filesystem"
+           % ", ".join(sorted(set(effects))), tr_fn.span)
     # Ok(root.clone()) for the empty path
     for ct, _, bb in inter.ret_cases(tr_fn):
         if inter.case_polarity(ct) == "ok":
@@ -249,6 +262,19 @@ def delegation(facts, rep, w, rule="R07.3", D=None):
         n += 1
         rep.ob("R07.4" if rule == "R07.3" else rule, b.id, "read_dir yields filename() of inner children", okf, "" if okf else
                "listing items are not reduced to bare names: the inner prefix leaks", b.span)
+        # ... of all of them, once each: the inner listing is only mapped, never filtered, cut, extended or reordered
+        shaping = []
+        for cb in inter.code_bodies(b):
+            for s in inter.sites(cb):
+                ad = s.short.split("::")[-1]
+                if s.short.split("::")[0] in ("Iterator", "StreamExt", "Stream", "Option", "Itertools", "DoubleEndedIterator") and ad in (
+                        "filter", "filter_map", "skip", "skip_while", "take", "take_while", "step_by", "chain", "zip", "rev", "flat_map",
+                        "flatten", "dedup", "peekable", "scan", "map_while", "fuse", "cycle", "last", "nth"):
+                    shaping.append(s.short)
+        n += 1
+        rep.ob("R07.4" if rule == "R07.3" else rule, b.id, "read_dir lists every inner child (no filtering adaptor)", not shaping,
+               "" if not shaping else "the inner listing passes through %s: an entry of the directory behind the altroot is not listed "
+               "(or listed differently) although it is reachable by path" % ", ".join(sorted(set(shaping))), b.span)
     return n
 
 
@@ -367,6 +393,10 @@ def run(facts, rep, tier, ctx):
             d = o["key"].split("|")[2]
             if d.startswith("remove_dir_all"):
                 rep.ob(("A/" if w.asyncw else "") + "R07.5", o["fn"], d, o["ok"], o["detail"], o["loc"])
+            # a transfer inside an altroot takes the generic route where the filesystem underneath may take its native one: both
+            # leave the same tree behind only while the generic route touches the destination after it has the source
+            elif d.split(":")[0] in ("copy_file", "move_file", "copy_dir", "move_dir"):
+                rep.ob(("A/" if w.asyncw else "") + "R07.6p", o["fn"], d, o["ok"], o["detail"], o["loc"])
         # the composite operations of the path type compute with the path strings of whatever filesystem they run on: on an
         # altroot those are the re-rooted strings, on the filesystem underneath the same strings behind the prefix P.  They
         # behave the same on both only while (a) the relative part of a walked entry is cut off by the length of the source
